@@ -85,12 +85,19 @@ where
         }
         let curr_file_pos = self.destination.stream_position()?;
 
-        self.destination.seek(std::io::SeekFrom::Start(
-            self.destination_start_offset + idx_pos.rva as u64,
-        ))?;
+        // An entry whose stream type is zero is an unused one. Write the location first and
+        // the type last, so that a destination which takes the entry in pieces (or fails half
+        // way) never holds a used entry with an incomplete location.
         let start = idx_pos.rva as usize;
         let end = (idx_pos.rva + idx_pos.data_size) as usize;
-        self.destination.write_all(&buffer[start..end])?;
+        let type_len = std::mem::size_of::<u32>();
+        let slot = self.destination_start_offset + idx_pos.rva as u64;
+        self.destination
+            .seek(std::io::SeekFrom::Start(slot + type_len as u64))?;
+        self.destination.write_all(&buffer[start + type_len..end])?;
+        self.destination.seek(std::io::SeekFrom::Start(slot))?;
+        self.destination
+            .write_all(&buffer[start..start + type_len])?;
 
         // Reset file-position
         self.destination
